@@ -317,7 +317,7 @@ def soak_case(rng, cid, t0):
 
 def known_slice(rng, cid, t0):
     """a fixed slice inside each recorded finding's region (so that a silent repair is noticed)"""
-    k = rng.choice(["nan", "nan0", "nan-cf2", "starve", "starve-frac", "stuck0", "stuck", "stuck", "late"])
+    k = rng.choice(["nan", "nan0", "nan-cf2", "starve", "starve-frac", "stuck0", "stuck", "stuck", "late", "phase", "firsthalf"])
     now = t0
     ops = [f"clock {now}"]
     if k == "stuck":
@@ -335,6 +335,33 @@ def known_slice(rng, cid, t0):
             ops.append(f"clock {now}")
             ops.append(f"req {rng.choice([20, 5, 11])} 1")
             now += rng.choice([500, 1000, 2000])
+        return Case(cid, ops, tags=("known-slice", k)), now
+    if k == "phase":
+        # sustained demand whose phase alternates between the half-second buckets (warmup-phase-stall) or is random
+        T, p, cf = rng.choice([(10, 10, 3), (20, 5, 4), (6, 3, 2), (33, 10, 0)])
+        now = now - now % 1000 + 1000
+        ops = [f"clock {now}", f"load wu {fb(T)} {p} {cf} 0"]
+        mode = rng.choice(["alt", "alt", "random"])
+        for s_ in range(p + rng.randint(5, 30)):
+            off = (600 if s_ % 2 else 100) if mode == "alt" else rng.choice([0, 100, 400, 499, 500, 600, 900])
+            ops.append(f"clock {now + off}")
+            ops.append(f"req {T + rng.choice([1, 5])} 1")
+            now += 1000
+        return Case(cid, ops, tags=("known-slice", k)), now
+    if k == "firsthalf":
+        # sustained demand confined to the first half-second bucket, several bursts per second, beyond the proved bound maxToken-warningToken+1
+        T, p, cf, D = rng.choice([(2, 3, 2, 4), (3, 5, 3, 7), (4, 10, 0, 20), (6, 2, 3, 6)])
+        now = now - now % 1000 + 1000
+        ops = [f"clock {now}", f"load wu {fb(T)} {p} {cf} 0"]
+        for s_ in range(D + rng.randint(3, 8)):
+            offs = sorted(rng.sample(range(0, 500), rng.randint(1, 3)))
+            left = T + rng.choice([1, 2])
+            for i, off in enumerate(offs):
+                n = left if i == len(offs) - 1 else rng.randint(1, max(1, left - 1))
+                left = max(1, left - n) if i < len(offs) - 1 else 0
+                ops.append(f"clock {now + off}")
+                ops.append(f"req {n} 1")
+            now += 1000
         return Case(cid, ops, tags=("known-slice", k)), now
     if k == "late":
         T, p, cf = rng.choice([(2, 3, 2), (3, 5, 3), (3, 30, 2), (4, 10, 0), (100, 10, 3), (20, 5, 4)])
